@@ -129,8 +129,27 @@ def run(check):
       if f.cls is sc and not isinstance(f.node, ast.Lambda) and any(
           isinstance(x, ast.Yield) for x in walk_no_nested(f.node, include_self=False)):
         gens.append((sc, f))
+  def never_instantiated(sc):
+    """a base class with subclasses whose name is only used in base lists and inside its own body: a template"""
+    if not repo.subclasses(sc):
+      return False
+    for m_ in repo.modules.values():
+      own = {id(x) for x in ast.walk(sc.node)} if m_ is sc.module else set()
+      bases = {id(b) for c_ in ast.walk(m_.tree) if isinstance(c_, ast.ClassDef) for b in c_.bases}
+      for x in ast.walk(m_.tree):
+        if id(x) in own or id(x) in bases:
+          continue
+        if (isinstance(x, ast.Name) and x.id == sc.name and isinstance(x.ctx, ast.Load)) or \
+           (isinstance(x, ast.Attribute) and x.attr == sc.name) or \
+           (isinstance(x, ast.alias) and x.name == sc.name) or (isinstance(x, ast.Constant) and x.value == sc.name):
+          return False
+    return True
   for sc, gen in gens:
     check.analysed(gen)
+    if never_instantiated(sc) and any(isinstance(c, ast.Call) and isinstance(c.func, ast.Attribute) and dotted(c.func.value) == 'self' and
+                                     len({id(repo.find_method(k, c.func.attr)) for k in [sc] + list(repo.subclasses(sc))}) > 1
+                                     for c in ast.walk(gen.node)):
+      continue          # a template: judged in each subclass, where the hooks are resolved (sa/inline.py: _specialise)
     problems = _pass_shape(gen)
     ci = repo.find_method(sc, 'choose_item')
     uses_queue = ci is not None and any(isinstance(c, ast.Call) and dotted(c.func) == 'next' and c.args and
@@ -167,37 +186,34 @@ def run(check):
     r_lag.ok('watermarks layout = (%s)' % ', '.join(layout), wm.loc())
     found = False
     for sc, gen in gens:
-      for n in ast.walk(gen.node):
-        if isinstance(n, ast.ListComp) and any('MIN_TIMESTAMP_LAG' in unparse(i) for g in n.generators for i in g.ifs):
-          found = True
-          cond = [i for g in n.generators for i in g.ifs if 'MIN_TIMESTAMP_LAG' in unparse(i)][0]
-          ok = False
-          why = unparse(cond)
-          if isinstance(cond, ast.Compare) and len(cond.ops) == 1 and isinstance(cond.ops[0], (ast.Gt, ast.GtE)) and \
-             isinstance(cond.left, ast.BinOp) and isinstance(cond.left.op, ast.Sub):
-            sub = cond.left.right
-            idx = None
-            tgt = [g for g in n.generators if cond in g.ifs][0].target
-            if isinstance(sub, ast.Subscript) and isinstance(sub.slice, ast.Constant) and isinstance(sub.slice.value, int) and \
-               isinstance(sub.value, ast.Name) and isinstance(tgt, ast.Name) and sub.value.id == tgt.id:
-              idx = sub.slice.value
-            elif isinstance(sub, ast.Name) and isinstance(tgt, (ast.Tuple, ast.List)):
-              pos = [i for i, e in enumerate(tgt.elts) if isinstance(e, ast.Name) and e.id == sub.id]
-              idx = pos[0] if len(pos) == 1 and len(tgt.elts) == len(layout) else None
-            if idx is not None and 0 <= idx < len(layout) and layout[idx] == 'min':
-              # the minuend must be the current time
-              ok = True
-          if ok:
-            r_lag.ok('%s: lag filter `%s` compares now - oldest timestamp' % (sc.name, why), gen.loc(n))
-          else:
-            r_lag.violate('lag filter', gen, cond, 'the MIN_TIMESTAMP_LAG filter `%s` does not compare (now - oldest '
-                          'timestamp) > lag against the watermarks layout (%s)' % (why, ', '.join(layout)))
-    # a lag of 0 (the value installed at shutdown) must switch the filter off entirely
-    for sc, gen in gens:
-      for prob in lag_filter_guard(gen):
-        r_lag.violate('lag filter active at lag 0', gen, prob, '%s filters its snapshot by MIN_TIMESTAMP_LAG without testing that the lag '
-                      'is set: with the lag at 0 (as at shutdown) metrics whose oldest timestamp is not in the past are still never '
-                      'handed out' % sc.name)
+      for n, cond, guarded in lag_conditions(gen):
+        found = True
+        ok = False
+        why = unparse(cond)
+        if isinstance(cond, ast.Compare) and len(cond.ops) == 1 and isinstance(cond.ops[0], (ast.Gt, ast.GtE)) and \
+           isinstance(cond.left, ast.BinOp) and isinstance(cond.left.op, ast.Sub):
+          sub = cond.left.right
+          idx = None
+          tgt = [g for g in n.generators if any(cond is x for i_ in g.ifs for x in ast.walk(i_))][0].target
+          if isinstance(sub, ast.Subscript) and isinstance(sub.slice, ast.Constant) and isinstance(sub.slice.value, int) and \
+             isinstance(sub.value, ast.Name) and isinstance(tgt, ast.Name) and sub.value.id == tgt.id:
+            idx = sub.slice.value
+          elif isinstance(sub, ast.Name) and isinstance(tgt, (ast.Tuple, ast.List)):
+            pos = [i for i, e in enumerate(tgt.elts) if isinstance(e, ast.Name) and e.id == sub.id]
+            idx = pos[0] if len(pos) == 1 and len(tgt.elts) == len(layout) else None
+          if idx is not None and 0 <= idx < len(layout) and layout[idx] == 'min':
+            # the minuend must be the current time
+            ok = True
+        if ok:
+          r_lag.ok('%s: lag filter `%s` compares now - oldest timestamp' % (sc.name, why), gen.loc(n))
+        else:
+          r_lag.violate('lag filter', gen, cond, 'the MIN_TIMESTAMP_LAG filter `%s` does not compare (now - oldest '
+                        'timestamp) > lag against the watermarks layout (%s)' % (why, ', '.join(layout)))
+        # a lag of 0 (the value installed at shutdown) must switch the filter off entirely
+        if not guarded:
+          r_lag.violate('lag filter active at lag 0', gen, n, '%s filters its snapshot by MIN_TIMESTAMP_LAG without testing that the lag '
+                        'is set: with the lag at 0 (as at shutdown) metrics whose oldest timestamp is not in the past are still never '
+                        'handed out' % sc.name)
     if not found:
       r_lag.violate('lag filter missing', 'carbon.cache:TimeSortedStrategy', None, 'no strategy filters its snapshot by '
                     'MIN_TIMESTAMP_LAG', construct='MIN_TIMESTAMP_LAG filter')
@@ -305,35 +321,68 @@ def _false_at_zero_lag(test, lag_names):
   return False
 
 
-def lag_filter_guard(gen):
-  """nodes of a generator that filter by MIN_TIMESTAMP_LAG without being under `if settings.MIN_TIMESTAMP_LAG`"""
+def _lag_names(root):
+  """(local copies of settings.MIN_TIMESTAMP_LAG, locals computed from it) inside a function or loop"""
+  copies, derived = set(), set()
+  for _ in range(3):
+    for st in ast.walk(root):
+      if isinstance(st, ast.Assign):
+        tg = {t.id for t in st.targets if isinstance(t, ast.Name)}
+        if isinstance(st.value, (ast.Attribute, ast.Subscript)) and 'MIN_TIMESTAMP_LAG' in unparse(st.value):
+          copies |= tg
+        if 'MIN_TIMESTAMP_LAG' in unparse(st.value) or any(isinstance(x, ast.Name) and x.id in derived for x in ast.walk(st.value)):
+          derived |= tg
+  return copies, derived | copies
+
+
+def lag_conditions(gen):
+  """(comprehension, the comparison with the lag, guarded) for every comprehension of a generator that filters by
+  MIN_TIMESTAMP_LAG (or a local copy of it).  guarded = the filter is off when the lag is 0: the comprehension is under
+  `if <lag>:` or its condition is `not <lag> or <comparison>`."""
   out = []
+  lag_names, derived = _lag_names(gen.node)
+
+  def mentions_lag(e):
+    return 'MIN_TIMESTAMP_LAG' in unparse(e) or any(isinstance(x, ast.Name) and x.id in derived for x in ast.walk(e))
+
+  def zero_test(e):
+    """true when the lag is 0"""
+    if isinstance(e, ast.UnaryOp) and isinstance(e.op, ast.Not):
+      return _false_at_zero_lag(e.operand, lag_names)
+    if isinstance(e, ast.Compare) and len(e.ops) == 1 and isinstance(e.ops[0], (ast.Eq, ast.LtE)):
+      l, r = e.left, e.comparators[0]
+      return (isinstance(r, ast.Constant) and r.value == 0 and _false_at_zero_lag(l, lag_names)) or \
+             (isinstance(l, ast.Constant) and l.value == 0 and isinstance(e.ops[0], ast.Eq) and _false_at_zero_lag(r, lag_names))
+    return False
   for n in ast.walk(gen.node):
-    cond = None
-    if isinstance(n, (ast.ListComp, ast.GeneratorExp)):
-      lag_names = set()
-      for st in ast.walk(gen.node):
-        if isinstance(st, ast.Assign) and 'MIN_TIMESTAMP_LAG' in unparse(st.value):
-          lag_names |= {t.id for t in st.targets if isinstance(t, ast.Name)}
-      for g_ in n.generators:
-        for i in g_.ifs:
-          if 'MIN_TIMESTAMP_LAG' in unparse(i) or any(isinstance(x, ast.Name) and x.id in lag_names for x in ast.walk(i)):
-            cond = n
-    if cond is None:
+    if not isinstance(n, (ast.ListComp, ast.GeneratorExp)):
       continue
-    guarded = False
-    p = getattr(n, '_parent', None)
-    while p is not None and p is not gen.node:
-      if isinstance(p, ast.If) and any(x is n for s_ in p.body for x in ast.walk(s_)) and _false_at_zero_lag(p.test, lag_names):
-        guarded = True
-      p = getattr(p, '_parent', None)
-    if not guarded:
-      out.append(n)
+    for g_ in n.generators:
+      for i in g_.ifs:
+        if not mentions_lag(i):
+          continue
+        cond, guarded = i, False
+        if isinstance(i, ast.BoolOp) and isinstance(i.op, ast.Or):
+          rest = [v for v in i.values if not zero_test(v)]
+          if len(rest) < len(i.values) and len(rest) == 1:
+            cond, guarded = rest[0], True
+        elif isinstance(i, ast.BoolOp) and isinstance(i.op, ast.And):
+          rest = [v for v in i.values if not _false_at_zero_lag(v, lag_names)]
+          if len(rest) == 1:
+            cond = rest[0]          # `lag and now - low > lag` is false for every entry at lag 0: not a guard, the filter stays on
+        p = getattr(n, '_parent', None)
+        while p is not None and p is not gen.node:
+          if isinstance(p, ast.If) and any(x is n for s_ in p.body for x in ast.walk(s_)) and _false_at_zero_lag(p.test, lag_names):
+            guarded = True
+          p = getattr(p, '_parent', None)
+        out.append((n, cond, guarded))
   return out
 
 
 def _pass_shape(gen):
-  """problems with the `while True: snapshot; while snapshot: yield pop` shape of a strategy generator."""
+  """problems with the shape of a strategy generator: an endless sequence of passes, each over a snapshot taken from ALL
+  cache entries (only the lag filter may exclude some), every element of which is handed out exactly once -
+  `while snapshot: yield snapshot.pop()` or `for x in [reversed](snapshot): yield <x or a projection of x>`."""
   probs = []
   body = [s for s in gen.node.body if not (isinstance(s, ast.Expr) and isinstance(s.value, ast.Constant))]
   if not (len(body) == 1 and isinstance(body[0], ast.While) and isinstance(body[0].test, ast.Constant) and body[0].test.value):
@@ -344,63 +393,135 @@ def _pass_shape(gen):
     if isinstance(n, (ast.Return, ast.Break)):      # a break of the drain loop abandons the rest of the snapshot too
       probs.append(('`%s` ends the pass (or the generator) early: metrics remaining in the snapshot are skipped / '
                     'StopIteration escapes choose_item' % type(n).__name__.lower(), n))
-  inner = [s for s in ast.walk(outer) if isinstance(s, ast.While) and s is not outer]
-  inner = [w for w in inner if isinstance(w.test, ast.Name)]
-  if len(inner) != 1:
-    probs.append(('expected exactly one `while <snapshot>:` drain loop, found %d' % len(inner), outer))
+
+  def hands_out(y):
+    return not (y.value is None or (isinstance(y.value, ast.Constant) and y.value.value is None))
+  loops = [s for s in ast.walk(outer) if s is not outer and (
+    (isinstance(s, ast.While) and isinstance(s.test, ast.Name)) or
+    (isinstance(s, ast.For) and any(isinstance(y, ast.Yield) and hands_out(y) for y in ast.walk(s))))]
+  loops = [l for l in loops if not any(l is not m and any(x is l for x in ast.walk(m)) for m in loops)]     # outermost ones
+  if len(loops) != 1:
+    probs.append(('expected exactly one drain loop (`while <snapshot>:` / `for x in <snapshot>:`), found %d' % len(loops), outer))
     return probs
-  loop = inner[0]
-  snap = loop.test.id
-  # snapshot definitions inside the outer loop
-  defs = [s for s in ast.walk(outer) if isinstance(s, ast.Assign) and any(isinstance(t, ast.Name) and t.id == snap
-                                                                          for t in s.targets)]
-  if not defs:
-    probs.append(('the snapshot `%s` is not rebuilt inside the `while True` loop' % snap, outer))
-  for d in defs:
-    if any(x is d for x in ast.walk(loop)):
-      probs.append(('the snapshot `%s` is reassigned inside its own drain loop' % snap, d))
+  loop = loops[0]
+  # copies of the lag setting (min_lag = settings.MIN_TIMESTAMP_LAG)
+  lag_names = {'MIN_TIMESTAMP_LAG'} | _lag_names(outer)[1]
+
+  def is_lag_test(e):
+    return any((isinstance(x, ast.Name) and x.id in lag_names) or (isinstance(x, ast.Attribute) and x.attr in lag_names) or
+               (isinstance(x, ast.Constant) and x.value in lag_names) for x in ast.walk(e))
+
+  exprs = []          # (expression that produces the snapshot or a stage of it, statement for the report)
+  if isinstance(loop, ast.While):
+    snap = loop.test.id
+  else:
+    it = loop.iter
+    while isinstance(it, ast.Call) and isinstance(it.func, ast.Name) and it.func.id in ('reversed', 'iter', 'list', 'tuple') and len(it.args) == 1:
+      it = it.args[0]
+    if isinstance(it, ast.Name):
+      snap = it.id
+    else:
+      snap = None
+      exprs.append((it, loop))
+  # the chain of definitions (inside the outer loop) the snapshot is computed from
+  chain, todo = set(), [snap] if snap else []
+  for e, _ in exprs:
+    todo.extend(x.id for x in ast.walk(e) if isinstance(x, ast.Name) and isinstance(x.ctx, ast.Load))
+  assigned = {}
+  for s_ in ast.walk(outer):
+    if isinstance(s_, ast.Assign):
+      for t in s_.targets:
+        if isinstance(t, ast.Name):
+          assigned.setdefault(t.id, []).append(s_)
+  while todo:
+    nm = todo.pop()
+    if nm in chain or nm not in assigned:
       continue
-    v = d.value
-    src_ok = False
+    chain.add(nm)
+    for d in assigned[nm]:
+      # comprehension targets are not stages of the snapshot
+      bound = {y.id for c in ast.walk(d.value) if isinstance(c, ast.comprehension) for y in ast.walk(c.target) if isinstance(y, ast.Name)}
+      todo.extend(x.id for x in ast.walk(d.value) if isinstance(x, ast.Name) and isinstance(x.ctx, ast.Load) and x.id not in bound)
+  if snap is not None and snap not in assigned:
+    probs.append(('the snapshot `%s` is not rebuilt inside the `while True` loop' % snap, outer))
+  src_seen = False
+  for nm in sorted(chain):
+    for d in assigned[nm]:
+      if any(x is d for x in ast.walk(loop)):
+        if nm == snap:
+          probs.append(('the snapshot `%s` is reassigned inside its own drain loop' % snap, d))
+        continue
+      exprs.append((d.value, d))
+  for v, d in exprs:
     for x in ast.walk(v):
       if isinstance(x, ast.Attribute) and x.attr in FULL_SOURCES and (dotted(x.value) or '').endswith('cache'):
-        src_ok = True
-      if isinstance(x, ast.Name) and x.id == snap:
-        src_ok = True          # refinement of the previous definition (e.g. the lag filter)
-    if not src_ok:
-      probs.append(('the snapshot `%s = %s` is not taken from all cache entries' % (snap, short(v, 50)), d))
-    for x in ast.walk(v):
+        src_seen = True
       if isinstance(x, ast.Subscript) and isinstance(x.slice, ast.Slice):
         probs.append(('the snapshot is sliced (`%s`): part of the cache is left out of the pass' % short(x, 40), d))
-      if isinstance(x, (ast.ListComp, ast.GeneratorExp)):
+      if isinstance(x, (ast.ListComp, ast.GeneratorExp, ast.SetComp, ast.DictComp)):
         for g in x.generators:
           for i in g.ifs:
-            if 'MIN_TIMESTAMP_LAG' not in unparse(i):
+            if not is_lag_test(i):
               probs.append(('the snapshot is filtered by `%s` (only the lag filter may exclude metrics)' % short(i, 50), d))
       if isinstance(x, ast.Call) and isinstance(x.func, ast.Name) and x.func.id in ('filter', 'set', 'islice'):
         probs.append(('the snapshot goes through `%s(...)`' % x.func.id, d))
-  # the drain loop: yields something computed from snapshot.pop(); nothing else shrinks or ends it
+  if not src_seen:
+    if snap in assigned:
+      what, at = '`%s = %s`' % (snap, short(assigned[snap][0].value, 50)), assigned[snap][0]
+    else:
+      what, at = ('`%s`' % short(exprs[0][0], 50)) if exprs else '?', loop
+    probs.append(('the snapshot %s is not taken from all cache entries' % what, at))
   ys = [y for y in ast.walk(loop) if isinstance(y, ast.Yield)]
   if not ys:
     probs.append(('the drain loop does not yield', loop))
-  for y in ys:
-    pops = [c for c in ast.walk(y) if isinstance(c, ast.Call) and isinstance(c.func, ast.Attribute) and
-            c.func.attr in ('pop', 'popleft') and dotted(c.func.value) == snap]
-    if not pops:
-      # popped into a local first?
-      stmts = [s for s in loop.body if isinstance(s, ast.Assign) and any(
-        isinstance(c, ast.Call) and isinstance(c.func, ast.Attribute) and c.func.attr in ('pop', 'popleft') and
-        dotted(c.func.value) == snap for c in ast.walk(s.value))]
-      if not stmts:
-        probs.append(('the drain loop yields `%s`, not an element popped from the snapshot' % short(y, 40), y))
-  for c in ast.walk(loop):
-    if isinstance(c, ast.Call) and isinstance(c.func, ast.Attribute) and dotted(c.func.value) == snap and \
-       c.func.attr in ('clear', 'remove'):
-      probs.append(('`%s` drops snapshot entries without yielding them' % short(c, 40), c))
+  if isinstance(loop, ast.While):
+    # yields something computed from snapshot.pop(); nothing else shrinks or ends it
+    for y in ys:
+      pops = [c for c in ast.walk(y) if isinstance(c, ast.Call) and isinstance(c.func, ast.Attribute) and
+              c.func.attr in ('pop', 'popleft') and dotted(c.func.value) == snap]
+      if not pops:
+        # popped into a local first?
+        stmts = [s_ for s_ in loop.body if isinstance(s_, ast.Assign) and any(
+          isinstance(c, ast.Call) and isinstance(c.func, ast.Attribute) and c.func.attr in ('pop', 'popleft') and
+          dotted(c.func.value) == snap for c in ast.walk(s_.value))]
+        if not stmts:
+          probs.append(('the drain loop yields `%s`, not an element popped from the snapshot' % short(y, 40), y))
+  else:
+    tnames = {x.id for x in ast.walk(loop.target) if isinstance(x, ast.Name)}
+    derived = set(tnames)
+    for s_ in loop.body:
+      if isinstance(s_, ast.Assign) and any(isinstance(x, ast.Name) and x.id in derived for x in ast.walk(s_.value)):
+        derived |= {t.id for t in s_.targets if isinstance(t, ast.Name)}
+        derived |= {e.id for t in s_.targets if isinstance(t, (ast.Tuple, ast.List)) for e in t.elts if isinstance(e, ast.Name)}
+    for y in ys:
+      if not hands_out(y):
+        continue
+      if not any(isinstance(x, ast.Name) and x.id in derived for x in ast.walk(y.value)):
+        probs.append(('the drain loop yields `%s`, not the element of the snapshot it is visiting' % short(y, 40), y))
+      # the yield is reached on every iteration: directly in the loop body, or under the lag test only
+      st = y
+      while getattr(st, '_parent', None) is not None and st._parent is not loop:
+        st = st._parent
+        if isinstance(st, ast.If) and not is_lag_test(st.test):
+          probs.append(('`%s` is handed out only when `%s`: other entries of the snapshot are skipped'
+                        % (short(y, 30), short(st.test, 40)), st))
+        elif isinstance(st, (ast.For, ast.While, ast.Try)) and st is not loop:
+          probs.append(('the yield is nested in `%s` inside the drain loop' % type(st).__name__.lower(), st))
+    for n in walk_no_nested(loop, include_self=False):
+      if isinstance(n, ast.Continue):
+        probs.append(('`continue` skips entries of the snapshot', n))
+    nyield = len([y for y in ys if hands_out(y)])
+    if nyield != 1:
+      probs.append(('the drain loop has %d yields handing out metrics (expected one per element)' % nyield, loop))
+  if snap is not None:
+    shrink = ('clear', 'remove') + (('pop', 'popleft') if isinstance(loop, ast.For) else ())
+    for c in ast.walk(loop):
+      if isinstance(c, ast.Call) and isinstance(c.func, ast.Attribute) and dotted(c.func.value) == snap and c.func.attr in shrink:
+        probs.append(('`%s` drops snapshot entries without yielding them' % short(c, 40), c))
   # yields outside the drain loop may only be the "nothing to do" signal
   for y in [y for y in walk_no_nested(outer, include_self=False) if isinstance(y, ast.Yield)]:
     if any(x is y for x in ast.walk(loop)):
       continue
-    if not (y.value is None or (isinstance(y.value, ast.Constant) and y.value.value is None)):
+    if hands_out(y):
       probs.append(('a yield outside the drain loop hands out `%s`' % short(y, 40), y))
   return probs
